@@ -307,6 +307,7 @@ def run(ck, n_hints: int, seed: int, focus: str, depth: int = 3, exhaustive_dept
             flat.append((h, x, cn, d, hm, rr[0], chk_, ev_))
     ex.evaluations = len(flat)
     group = {}
+    rejecting = []
     for (h, x, cn, d, hm, sat, chk, ev) in flat:
         evb = (ev[0] == 'true') if isinstance(ev, list) else ev
         if evb != chk:   # the Lean theorem says this cannot happen
@@ -318,6 +319,8 @@ def run(ck, n_hints: int, seed: int, focus: str, depth: int = 3, exhaustive_dept
         v = real.verdicts(x, h, cs[cn], d)
         ex.traces_validated += 1
         verdict_split['accept' if chk else 'reject'] += 1
+        if not chk and cn == 'default' and len(rejecting) < 600 and not is_gen:
+            rejecting.append((h, x, d, hm))
         if sat or not chk:
             sk = (shape(hm), sat, chk)
             if sk not in seen_shapes and ('(' in sk[0]):
@@ -358,6 +361,8 @@ def run(ck, n_hints: int, seed: int, focus: str, depth: int = 3, exhaustive_dept
     ex.extra['pairs'] = len(group)
     ex.samples = [{'hint': repr(m[0])[:200], 'object': repr(m[1])[:120], 'conf': m[2]} for m in meta[:3]]
 
+    if focus == 'C03':
+        signal_oracle(ex, rejecting, fail)
     if focus == 'C09':
         cost_oracle(ex, usable, og, reg, cs, fail)
     if focus == 'C10':
@@ -488,4 +493,94 @@ def consume_oracle(ex, usable, og, cs, fail):
                     fail(f'C10:mutated:{maker}:{shape(hm)}', f'checking {rb:.80} against {h!r:.160} changed it to {x!r:.80}', rp)
     ex.extra['consume_cases'] = n
     ex.extra['consume_kinds'] = dict(kinds)
+    ex.evaluations += n
+
+
+class CustomViolation(Exception):
+    pass
+
+
+class CustomDoorViolation(Exception):
+    pass
+
+
+class CustomWarning(UserWarning):
+    pass
+
+
+def signal_oracle(ex, rejecting, fail):
+    """Every rejection surfaces as exactly the configured violation (raised, or warned with
+    the call proceeding), names the hint, its culprits begin with the rejected object, and
+    is never a desynchronisation or any other exception — over violation_type /
+    violation_*_type / violation_verbosity / is_color / strategy combinations."""
+    import itertools
+    import re
+    import warnings
+    from beartype import BeartypeConf, BeartypeStrategy, BeartypeViolationVerbosity, beartype
+    from beartype.door import die_if_unbearable
+    from beartype.roar import (BeartypeCallHintParamViolation, BeartypeCallHintReturnViolation, BeartypeDoorHintViolation)
+    ansi = re.compile(r'\x1b\[[0-9;]*m')
+    variants = []
+    for vt, spec, strat, verb, color in itertools.product(
+            (None, CustomViolation, CustomWarning), (False, True), (BeartypeStrategy.O1, BeartypeStrategy.On),
+            tuple(BeartypeViolationVerbosity), (None, True, False)):
+        variants.append((vt, spec, strat, verb, color))
+    n = 0
+    kinds = collections.Counter()
+    rng = random.Random(len(rejecting))
+    for (h, x, d, hm) in rejecting:
+        for (vt, spec, strat, verb, color) in rng.sample(variants, 4):
+            kw = dict(strategy=strat, violation_verbosity=verb, is_color=color)
+            if vt is not None:
+                kw['violation_type'] = vt
+            if spec:
+                kw['violation_door_type'] = CustomDoorViolation
+            try:
+                conf = BeartypeConf(**kw)
+            except Exception as e:
+                fail(f'C03:conf:{type(e).__name__}', f'BeartypeConf({kw}) raised {type(e).__name__}', {'kwargs': repr(kw)})
+                continue
+            exp_door = CustomDoorViolation if spec else (vt or BeartypeDoorHintViolation)
+            exp_param = vt or BeartypeCallHintParamViolation
+            exp_ret = vt or BeartypeCallHintReturnViolation
+            fp, fr = real.decorated(h, conf)
+            ran = []
+            runs = [('door', exp_door, lambda: die_if_unbearable(x, h, conf=conf))]
+            if fp is not None:
+                runs += [('param', exp_param, lambda: fp(x)), ('return', exp_ret, lambda: fr(x))]
+            for kind, exp, call in runs:
+                real.DRAW[0] = d
+                n += 1
+                rp = {'hint': repr(h), 'object': repr(x)[:300], 'draw': d, 'entry': kind, 'conf': repr(kw), 'expected_class': exp.__name__}
+                with warnings.catch_warnings(record=True) as ws:
+                    warnings.simplefilter('always')
+                    try:
+                        call()
+                        got = None
+                    except Exception as e:
+                        got = e
+                ours = [w for w in ws if issubclass(w.category, CustomWarning)]
+                if issubclass(exp, Warning):
+                    kinds['warned'] += 1
+                    if got is not None or not ours:
+                        fail(f'C03:warn:{kind}:{shape(hm)}', f'{kind} rejection of {x!r:.60} against {h!r:.140} with a Warning class configured: '
+                             f'raised {type(got).__name__ if got else None}, {len(ours)} warning(s) emitted (expected: warned, call proceeds)', rp)
+                    msg = str(ours[0].message) if ours else ''
+                else:
+                    kinds['raised'] += 1
+                    if got is None or type(got) is not exp:
+                        fail(f'C03:class:{kind}:{type(got).__name__}:{shape(hm)}', f'{kind} rejection of {x!r:.60} against {h!r:.140}: got '
+                             f'{type(got).__name__ if got else "no exception"}, configured {exp.__name__}', rp)
+                        continue
+                    msg = str(got)
+                    cul = getattr(got, 'culprits', None)
+                    if cul is not None and not (cul and (cul[0] is x or cul[0] == repr(x) or isinstance(cul[0], str))):
+                        fail(f'C03:culprits:{kind}:{shape(hm)}', f'culprits {cul!r:.120} do not begin with the rejected object {x!r:.60}', rp)
+                plain = ansi.sub('', msg)
+                named = repr(h) in plain or (T.get_origin(h) is T.Union and all(
+                    (a.__name__ if isinstance(a, type) else repr(a)) in plain for a in T.get_args(h)))
+                if verb is not BeartypeViolationVerbosity.MINIMAL and not named and kind == 'door':
+                    fail(f'C03:message:{kind}:{shape(hm)}', f'violation message does not name the hint {h!r:.140}: {plain[:200]!r}', rp)
+    ex.extra['signal_cases'] = n
+    ex.extra['signal_kinds'] = dict(kinds)
     ex.evaluations += n
